@@ -1162,6 +1162,9 @@ class TCPConnector(BaseConnector):
         *,
         should_close: bool = False,
     ) -> None:
+        # release() of an unfinished exchange passes should_close=False and
+        # leaves the verdict to the protocol: take it into account as well.
+        should_close = should_close or bool(protocol.should_close)
         if should_close and key.is_ssl and self._ssl_shutdown_timeout == 0:
             # The exchange was given up (timeout, cancellation, error). A
             # graceful TLS shutdown waits for the close_notify of a peer that
